@@ -223,7 +223,7 @@ Definition to_cmd_f (c : fcmd) : cmd fact :=
 Definition flush_f (w : fw) : fw * list (cmd fact) :=
   (w <| f_out := [] |>, map to_cmd_f (rev (f_out w))).
 
-Definition fl_fuel (w : fw) : nat := S (S (length (f_devs w))).
+Definition fl_fuel (w : fw) : nat := S (S (length (f_devs w) + length (f_devs w) + length (f_devs w))).
 
 Definition exec_fl (sc : fl_scn) (a : fact) (w : fw) (nw : Z) : fw * list (cmd fact) :=
   flush_f (exec_fact (fl_fuel w) (fun k => nth k (fq_uops sc) []) a w nw).
